@@ -8,6 +8,7 @@ VARIABLE l
 
 DevDecode(e) == IF Dev_NarrowingWraps(e) THEN "Dev_NarrowingWraps"
                 ELSE IF Dev_NullAcceptedAsZero(e) THEN "Dev_NullAcceptedAsZero"
+                ELSE IF Dev_UnwritableTimeAccepted(e) THEN "Dev_UnwritableTimeAccepted"
                 ELSE IF Dev_NullBytesAccepted(e) THEN "Dev_NullBytesAccepted"
                 ELSE IF Dev_BytesDecodeErrorPanics(e) THEN "Dev_BytesDecodeErrorPanics"
                 ELSE "NONE"
